@@ -26,3 +26,148 @@ pub use stream::{
     StreamSubscription,
 };
 pub use sync_metrics::{SessionPhase, SyncError};
+
+/// Exports for the deterministic-simulation harness, guarded by `--cfg p2panda_p2panda_verif`
+/// (off by default): the crate-private cursor tracker and sync metrics aggregator, plus a public
+/// view of the crate-private `SyncEvent` the aggregator returns.
+#[cfg(p2panda_p2panda_verif)]
+#[doc(hidden)]
+pub mod verif {
+    use p2panda_core::Extensions;
+    use p2panda_sync::FromSync;
+    use p2panda_sync::protocols::TopicLogSyncEvent;
+
+    use super::stream::Source;
+    use super::sync_metrics::SyncEvent;
+
+    pub use super::acked::{Acked, AckedError, Logs};
+    pub use super::sync_metrics::{SessionPhase, SyncError};
+
+    /// What `Aggregator::process` returned, without the operation itself.
+    #[derive(Clone, Debug, PartialEq, Eq)]
+    pub enum SyncEventView {
+        SyncStarted {
+            session_id: u64,
+            incoming_operations: u32,
+            outgoing_operations: u32,
+            incoming_bytes: u32,
+            outgoing_bytes: u32,
+            topic_sessions: u32,
+        },
+        SyncEnded {
+            session_id: u64,
+            sent_operations: u32,
+            received_operations: u32,
+            sent_bytes: u32,
+            received_bytes: u32,
+            sent_bytes_topic_total: u32,
+            received_bytes_topic_total: u32,
+            failed: bool,
+        },
+        OperationReceived {
+            session_id: u64,
+            sent_operations: u32,
+            received_operations: u32,
+            sent_bytes: u32,
+            received_bytes: u32,
+            sent_bytes_topic_total: u32,
+            received_bytes_topic_total: u32,
+            live: bool,
+        },
+    }
+
+    /// The topic stream's sync metrics aggregator.
+    #[derive(Clone, Debug, Default)]
+    pub struct Aggregator(super::sync_metrics::Aggregator);
+
+    impl Aggregator {
+        pub fn new() -> Self {
+            Self::default()
+        }
+
+        pub fn running_sessions(&self) -> u32 {
+            self.0.running_sessions()
+        }
+
+        pub fn total_bytes_sent(&self) -> u32 {
+            self.0.total_bytes_sent()
+        }
+
+        pub fn total_bytes_received(&self) -> u32 {
+            self.0.total_bytes_received()
+        }
+
+        /// Feeds one session event to the aggregator exactly like the topic stream task does
+        /// and returns a view of the enriched event.
+        pub fn process<E: Extensions>(
+            &mut self,
+            from_sync: FromSync<TopicLogSyncEvent<E>>,
+        ) -> Option<SyncEventView> {
+            view(self.0.process(from_sync)?)
+        }
+    }
+
+    fn view<E>(event: SyncEvent<E>) -> Option<SyncEventView> {
+        match event {
+            SyncEvent::SyncStarted {
+                session_id,
+                incoming_operations,
+                outgoing_operations,
+                incoming_bytes,
+                outgoing_bytes,
+                topic_sessions,
+                ..
+            } => Some(SyncEventView::SyncStarted {
+                session_id,
+                incoming_operations,
+                outgoing_operations,
+                incoming_bytes,
+                outgoing_bytes,
+                topic_sessions,
+            }),
+            SyncEvent::SyncEnded {
+                session_id,
+                sent_operations,
+                received_operations,
+                sent_bytes,
+                received_bytes,
+                sent_bytes_topic_total,
+                received_bytes_topic_total,
+                error,
+                ..
+            } => Some(SyncEventView::SyncEnded {
+                session_id,
+                sent_operations,
+                received_operations,
+                sent_bytes,
+                received_bytes,
+                sent_bytes_topic_total,
+                received_bytes_topic_total,
+                failed: error.is_some(),
+            }),
+            SyncEvent::OperationReceived { source, .. } => match source {
+                Source::SyncSession {
+                    session_id,
+                    sent_operations,
+                    received_operations,
+                    sent_bytes,
+                    received_bytes,
+                    sent_bytes_topic_total,
+                    received_bytes_topic_total,
+                    phase,
+                    ..
+                } => Some(SyncEventView::OperationReceived {
+                    session_id,
+                    sent_operations,
+                    received_operations,
+                    sent_bytes,
+                    received_bytes,
+                    sent_bytes_topic_total,
+                    received_bytes_topic_total,
+                    live: matches!(phase, SessionPhase::Live),
+                }),
+                _ => None,
+            },
+        }
+    }
+}
